@@ -42,7 +42,7 @@ def run(prop):
     ppath = vlib.write_ndjson(os.path.join(sc, "progs.ndjson"), [{"id": p["id"], "prog": p["prog"], "den": []} for p in chosen])
     binp = vlib.go_build("./c08", "c08")
     # conformance of the layout model: Fmt(p) in the canonical spelling = real formatter output for every spelling of p
-    lpath0 = vlib.write_ndjson(os.path.join(sc, "fmt.ndjson"), [{"prog": p["prog"], "fmt": p["fmt"]} for p in chosen])
+    lpath0 = vlib.write_ndjson(os.path.join(sc, "fmt.ndjson"), [{"prog": p["prog"], "fmt": p["fmt"], "fmtl": p["fmtl"]} for p in chosen])
     pl = vlib.run([binp, "layout", lpath0], check=False, timeout=3000)
     lay = vlib.harness_results(ck, pl)
     if lay["programs"] != len(chosen):
